@@ -10,6 +10,9 @@ stale data).
    query either reports staleness or answers about the structure the hull was created from.
  * `hullFacets_def`: the model's hull = facets incident to exactly one cell (`boundaryFacets`),
    closedness is C05's `closedBoundary_iff`.
+ * hull after insertion (last section, Model/Cavity.lean): which facets are hull facets after a
+   cavity / hull-extension step, for all cell lists — `hull_after_old_facet`, `hull_after_interior`,
+   `hull_after_extension(_conflict)`, `hull_after_new_facet`, `hull_after_mem`, `hull_count_*`.
 Scope: histories of calls on one triangulation value.  A fresh Tds moved into place (bootstrap at
 D+1 vertices, heuristic rebuild `*self = candidate`) used to restart the counter at 0, which breaks
 `stepOk` (the counter goes back) and let an old hull answer about a different triangulation
@@ -21,6 +24,7 @@ description of a convex hull; tied by K1 only.
 -/
 import DelaunayModel.Model.Gen
 import DelaunayModel.Model.Certify
+import DelaunayModel.Lemmas.HullStepAux
 namespace DM.C11
 
 open DM.Gen
@@ -171,5 +175,338 @@ theorem nearest_minimal (fs : List (Nat × Int)) (g : Nat × Int) (h : nearest f
         · exact hmin x hx'
 
 example : nearest [(0, 12797), (1, 12477), (2, 14579), (3, 11358)] = some (3, 11358) := by decide
+
+end DM.C11
+
+/-! ## The hull after a cavity / hull-extension step
+
+How the boundary (hull) of the abstract complex changes under `cavityInsertWith cells C F v`
+(Model/Cavity.lean: drop the cells `C`, add the cone from the new vertex `v` over the facets `F`),
+for ALL cell lists.  `bdry cells` (Lemmas/HullStepAux.lean, `= cavityBoundary cells`) is the list of
+facets incident to exactly one cell — the hull facets of `hullFacets_def` on key lists.
+ * §h1 facets without `v`: `hull_after_old_facet` (general `C`, `F`), and the readable instances
+       `hull_after_interior` (hull unchanged), `hull_after_extension` (visible facets leave),
+       `hull_after_extension_conflict` (both at once: conflict region and visible facets)
+ * §h2 facets through `v`: `hull_after_new_facet` — cones over the horizon ridges
+ * §h3 `hull_after_mem`: every hull facet afterwards is of one of the two kinds
+ * §h4 counts: `hull_new_part_length`, `hull_count_extension`, `hull_count_extension_conflict`,
+       `hull_count_interior`
+ * §h5 examples (`decide`), among them the counterexample `hull_after_interior_needs_le_two`
+Combinatorial only: WHICH facets are visible is geometry (see the scope note at the top).
+Helper lemmas: Lemmas/HullStepAux.lean, Lemmas/CavityAux.lean.  Core only.
+-/
+namespace DM.C11
+
+/-! ### §h1 facets without the new vertex -/
+
+/-- **old facets, general step**: a facet without the new vertex is a hull facet afterwards iff its
+degree before, minus its degree inside the removed region, plus one if it is coned, is one -/
+theorem hull_after_old_facet {cells C F : List (List Nat)} {v : Nat} (hnd : cells.Nodup)
+    (hC : C.Nodup) (hsub : ∀ c ∈ C, c ∈ cells) (hF : F.Nodup)
+    (hFs : ∀ f ∈ F, f.Pairwise (· < ·)) (hvF : ∀ f ∈ F, v ∉ f) {f : List Nat} (hvf : v ∉ f) :
+    f ∈ bdry (cavityInsertWith cells C F v) ↔
+      facetCount cells f - facetCount C f + (if f ∈ F then 1 else 0) = 1 := by
+  rw [mem_bdry, facetCount_step_old hnd hC hsub hF hFs hvF hvf]
+
+/-- **old facets, hull extension with conflict region** (`V` the visible hull facets, `F` the
+symmetric difference of `bdry C` and `V`, e.g. `hullStepFacets C V`): for a facet of degree ≤ 2 the
+hull afterwards consists of the old hull facets that are not visible.  Instances: `V = []`
+(`hull_after_interior`), `C = []` (`hull_after_extension`, no degree bound needed). -/
+theorem hull_after_extension_conflict {cells C F V : List (List Nat)} {v : Nat} (hnd : cells.Nodup)
+    (hs : ∀ c ∈ cells, c.Pairwise (· < ·)) (hC : C.Nodup) (hsub : ∀ c ∈ C, c ∈ cells)
+    (hfresh : ∀ c ∈ cells, v ∉ c) (hF : F.Nodup) (hVb : ∀ f ∈ V, f ∈ bdry cells)
+    (hFV : ∀ f, f ∈ F ↔ (f ∈ bdry C ∧ f ∉ V) ∨ (f ∈ V ∧ f ∉ bdry C))
+    {f : List Nat} (hvf : v ∉ f) (h2 : facetCount cells f ≤ 2) :
+    f ∈ bdry (cavityInsertWith cells C F v) ↔ f ∈ bdry cells ∧ f ∉ V := by
+  have hFsub : ∀ g ∈ F, g ∈ bdry C ∨ g ∈ bdry cells := fun g hg => by
+    rcases (hFV g).1 hg with h | h
+    · exact Or.inl h.1
+    · exact Or.inr (hVb g h.1)
+  have hsC : ∀ c ∈ C, c.Pairwise (· < ·) := fun c hc => hs c (hsub c hc)
+  have hfC : ∀ c ∈ C, v ∉ c := fun c hc => hfresh c (hsub c hc)
+  have hFs : ∀ g ∈ F, g.Pairwise (· < ·) := fun g hg =>
+    (hFsub g hg).elim (bdry_lt_sorted hsC g) (bdry_lt_sorted hs g)
+  have hvF : ∀ g ∈ F, v ∉ g := fun g hg =>
+    (hFsub g hg).elim (bdry_fresh hfC g) (bdry_fresh hfresh g)
+  rw [hull_after_old_facet hnd hC hsub hF hFs hvF hvf, mem_bdry]
+  have hle := facetCount_sub_le hnd hC hsub f
+  have hV : f ∈ V → facetCount cells f = 1 := fun h => mem_bdry.1 (hVb f h)
+  have hmem := hFV f
+  rw [mem_bdry] at hmem
+  by_cases hfV : f ∈ V
+  · have h1 := hV hfV
+    by_cases hk : facetCount C f = 1
+    · have : f ∉ F := fun h => by
+        rcases hmem.1 h with h' | h'
+        · exact h'.2 hfV
+        · exact h'.2 hk
+      rw [if_neg this]
+      constructor
+      · intro h; omega
+      · intro h; exact absurd hfV h.2
+    · have : f ∈ F := hmem.2 (Or.inr ⟨hfV, hk⟩)
+      rw [if_pos this]
+      constructor
+      · intro h; omega
+      · intro h; exact absurd hfV h.2
+  · by_cases hk : facetCount C f = 1
+    · have : f ∈ F := hmem.2 (Or.inl ⟨hk, hfV⟩)
+      rw [if_pos this]
+      constructor
+      · intro h; exact ⟨by omega, hfV⟩
+      · intro h; omega
+    · have : f ∉ F := fun h => by
+        rcases hmem.1 h with h' | h'
+        · exact hk h'.1
+        · exact hfV h'.1
+      rw [if_neg this]
+      constructor
+      · intro h; exact ⟨by omega, hfV⟩
+      · intro h; omega
+
+/-- **old facets, interior insertion** (every boundary facet of the removed region coned): the hull
+does not change as a set of facets — also when the removed region touches the hull (a hull facet of
+a removed cell has degree 1 − 1 + 1 = 1: it is now the base of its cone cell).  The degree bound is
+needed: `hull_after_interior_needs_le_two`. -/
+theorem hull_after_interior {cells C : List (List Nat)} {v : Nat} (hnd : cells.Nodup)
+    (hs : ∀ c ∈ cells, c.Pairwise (· < ·)) (hC : C.Nodup) (hsub : ∀ c ∈ C, c ∈ cells)
+    (hfresh : ∀ c ∈ cells, v ∉ c) {f : List Nat} (hvf : v ∉ f) (h2 : facetCount cells f ≤ 2) :
+    f ∈ bdry (cavityInsert cells C v) ↔ f ∈ bdry cells := by
+  have := hull_after_extension_conflict (V := []) hnd hs hC hsub hfresh (cavityBoundary_nodup C)
+    (by simp) (fun g => by simp [bdry]) hvf h2
+  simpa [cavityInsert] using this
+
+/-- **old facets, pure hull extension** (`C = []`, `F` ⊆ hull the visible facets): the visible facets
+stop being hull facets, every other old hull facet stays, nothing else appears -/
+theorem hull_after_extension {cells F : List (List Nat)} {v : Nat} (hnd : cells.Nodup)
+    (hs : ∀ c ∈ cells, c.Pairwise (· < ·)) (hfresh : ∀ c ∈ cells, v ∉ c) (hF : F.Nodup)
+    (hFb : ∀ f ∈ F, f ∈ bdry cells) {f : List Nat} (hvf : v ∉ f) :
+    f ∈ bdry (cavityInsertWith cells [] F v) ↔ f ∈ bdry cells ∧ f ∉ F := by
+  rw [hull_after_old_facet hnd List.nodup_nil (by simp) hF (fun g hg => bdry_lt_sorted hs g (hFb g hg))
+    (fun g hg => bdry_fresh hfresh g (hFb g hg)) hvf, mem_bdry, facetCount_nil]
+  by_cases hm : f ∈ F
+  · have := mem_bdry.1 (hFb f hm)
+    rw [if_pos hm]
+    constructor
+    · intro h; omega
+    · intro h; exact absurd hm h.2
+  · rw [if_neg hm]
+    constructor
+    · intro h; exact ⟨by omega, hm⟩
+    · intro h; omega
+
+/-! ### §h2 facets through the new vertex -/
+
+/-- **new facets**: the facet `r ∪ {v}` through the new vertex is a hull facet afterwards iff `r` is
+a horizon ridge — it lies in exactly one coned facet -/
+theorem hull_after_new_facet {cells F : List (List Nat)} (C : List (List Nat)) {v : Nat}
+    (hfresh : ∀ c ∈ cells, v ∉ c) (hFs : ∀ f ∈ F, f.Pairwise (· < ·)) (hvF : ∀ f ∈ F, v ∉ f)
+    {r : List Nat} (hr : r.Pairwise (· ≤ ·)) :
+    coneCell v r ∈ bdry (cavityInsertWith cells C F v) ↔ ridgeCount F r = 1 := by
+  rw [mem_bdry, facetCount_step_cone C hfresh hFs hvF hr]
+
+/-- the same with the horizon written as the boundary of the coned facets -/
+theorem hull_after_new_facet' {cells F : List (List Nat)} (C : List (List Nat)) {v : Nat}
+    (hfresh : ∀ c ∈ cells, v ∉ c) (hFs : ∀ f ∈ F, f.Pairwise (· < ·)) (hvF : ∀ f ∈ F, v ∉ f)
+    {r : List Nat} (hr : r.Pairwise (· ≤ ·)) :
+    coneCell v r ∈ bdry (cavityInsertWith cells C F v) ↔ r ∈ bdry F := by
+  rw [hull_after_new_facet C hfresh hFs hvF hr, ridgeCount_eq_one_iff]
+
+/-! ### §h3 the full characterisation -/
+
+/-- **the hull after the step**: every hull facet afterwards is an old facet with the degree
+condition of `hull_after_old_facet` or the cone over a horizon ridge, and conversely -/
+theorem hull_after_mem {cells C F : List (List Nat)} {v : Nat} (hnd : cells.Nodup)
+    (hC : C.Nodup) (hsub : ∀ c ∈ C, c ∈ cells) (hfresh : ∀ c ∈ cells, v ∉ c) (hF : F.Nodup)
+    (hFs : ∀ f ∈ F, f.Pairwise (· < ·)) (hvF : ∀ f ∈ F, v ∉ f) (g : List Nat) :
+    g ∈ bdry (cavityInsertWith cells C F v) ↔
+      (v ∉ g ∧ facetCount cells g - facetCount C g + (if g ∈ F then 1 else 0) = 1) ∨
+      (∃ r, g = coneCell v r ∧ v ∉ r ∧ r.Pairwise (· < ·) ∧ ridgeCount F r = 1) := by
+  constructor
+  · intro hg
+    by_cases hv : v ∈ g
+    · right
+      have hgf : g ∈ cellFacets (cavityInsertWith cells C F v) := by
+        obtain ⟨c, hc, x, hx, e⟩ := bdry_facet_of hg
+        exact mem_cellFacets.2 ⟨c, hc, x, hx, e⟩
+      obtain ⟨hgs, hcone⟩ := step_facet_through_v C hfresh hFs hvF hgf hv
+      refine ⟨without g v, hcone.symm, not_mem_without_self g v, without_lt_sorted hgs v, ?_⟩
+      rw [← hcone] at hg
+      exact (hull_after_new_facet C hfresh hFs hvF
+        (lt_sorted_le (without_lt_sorted hgs v))).1 hg
+    · exact Or.inl ⟨hv, (hull_after_old_facet hnd hC hsub hF hFs hvF hv).1 hg⟩
+  · rintro (⟨hv, h⟩ | ⟨r, rfl, _, hr, h⟩)
+    · exact (hull_after_old_facet hnd hC hsub hF hFs hvF hv).2 h
+    · exact (hull_after_new_facet C hfresh hFs hvF (lt_sorted_le hr)).2 h
+
+/-! ### §h4 counting -/
+
+/-- the hull facets through the new vertex are as many as the horizon ridges -/
+theorem hull_new_part_length {cells F : List (List Nat)} (C : List (List Nat)) {v : Nat}
+    (hfresh : ∀ c ∈ cells, v ∉ c) (hFs : ∀ f ∈ F, f.Pairwise (· < ·)) (hvF : ∀ f ∈ F, v ∉ f) :
+    ((bdry (cavityInsertWith cells C F v)).filter (fun g => g.contains v)).length =
+      (bdry F).length := by
+  have hrs : ∀ r ∈ bdry F, r.Pairwise (· < ·) := bdry_lt_sorted hFs
+  rw [← List.length_map (f := coneCell v) (as := bdry F)]
+  apply length_eq_of_nodup_of_mem_iff
+    (List.Nodup.sublist List.filter_sublist (bdry_nodup _))
+    (map_coneCell_nodup (bdry_nodup F) (fun r hr => lt_sorted_le (hrs r hr)))
+  intro g
+  rw [List.mem_filter, List.mem_map, List.contains_iff_mem]
+  constructor
+  · rintro ⟨hg, hv⟩
+    have hgf : g ∈ cellFacets (cavityInsertWith cells C F v) := by
+      obtain ⟨c, hc, x, hx, e⟩ := bdry_facet_of hg
+      exact mem_cellFacets.2 ⟨c, hc, x, hx, e⟩
+    obtain ⟨hgs, hcone⟩ := step_facet_through_v C hfresh hFs hvF hgf hv
+    refine ⟨without g v, ?_, hcone⟩
+    rw [← hcone] at hg
+    exact (hull_after_new_facet' C hfresh hFs hvF
+      (lt_sorted_le (without_lt_sorted hgs v))).1 hg
+  · rintro ⟨r, hr, rfl⟩
+    exact ⟨(hull_after_new_facet' C hfresh hFs hvF (lt_sorted_le (hrs r hr))).2 hr,
+      self_mem_coneCell v r⟩
+
+/-- if the old hull facets that survive are exactly those outside `V`, the count follows -/
+theorem hull_count_of_old_part {cells F V : List (List Nat)} (C : List (List Nat)) {v : Nat}
+    (hfresh : ∀ c ∈ cells, v ∉ c) (hFs : ∀ f ∈ F, f.Pairwise (· < ·)) (hvF : ∀ f ∈ F, v ∉ f)
+    (hV : V.Nodup) (hVb : ∀ f ∈ V, f ∈ bdry cells)
+    (hold : ∀ f, v ∉ f → (f ∈ bdry (cavityInsertWith cells C F v) ↔ f ∈ bdry cells ∧ f ∉ V)) :
+    (bdry (cavityInsertWith cells C F v)).length =
+      (bdry cells).length - V.length + (bdry F).length := by
+  rw [← length_filter_add_length_filter_not (fun g => g.contains v)
+    (bdry (cavityInsertWith cells C F v)), hull_new_part_length C hfresh hFs hvF,
+    ← length_filter_not_contains (bdry_nodup cells) hV hVb]
+  have : ((bdry (cavityInsertWith cells C F v)).filter (fun g => !g.contains v)).length =
+      ((bdry cells).filter (fun c => !V.contains c)).length := by
+    apply length_eq_of_nodup_of_mem_iff
+      (List.Nodup.sublist List.filter_sublist (bdry_nodup _))
+      (List.Nodup.sublist List.filter_sublist (bdry_nodup _))
+    intro g
+    have e1 : (!g.contains v) = true ↔ v ∉ g := by simp
+    have e2 : (!V.contains g) = true ↔ g ∉ V := by simp
+    rw [List.mem_filter, List.mem_filter, e1, e2]
+    constructor
+    · rintro ⟨hg, hv⟩
+      exact (hold g hv).1 hg
+    · rintro ⟨hg, hgV⟩
+      have hv : v ∉ g := bdry_fresh hfresh g hg
+      exact ⟨(hold g hv).2 ⟨hg, hgV⟩, hv⟩
+  omega
+
+/-- **count, pure hull extension**: hull facets afterwards = hull facets before − visible facets +
+horizon ridges (`bdry F` is the duplicate-free list of the ridges lying in exactly one facet of `F`) -/
+theorem hull_count_extension {cells F : List (List Nat)} {v : Nat} (hnd : cells.Nodup)
+    (hs : ∀ c ∈ cells, c.Pairwise (· < ·)) (hfresh : ∀ c ∈ cells, v ∉ c) (hF : F.Nodup)
+    (hFb : ∀ f ∈ F, f ∈ bdry cells) :
+    (bdry (cavityInsertWith cells [] F v)).length =
+      (bdry cells).length - F.length + (bdry F).length :=
+  hull_count_of_old_part [] hfresh (fun g hg => bdry_lt_sorted hs g (hFb g hg))
+    (fun g hg => bdry_fresh hfresh g (hFb g hg)) hF hFb
+    (fun _ hvf => hull_after_extension hnd hs hfresh hF hFb hvf)
+
+/-- **count, hull extension with conflict region**, all facet degrees ≤ 2 -/
+theorem hull_count_extension_conflict {cells C F V : List (List Nat)} {v : Nat}
+    (hnd : cells.Nodup) (hs : ∀ c ∈ cells, c.Pairwise (· < ·)) (hC : C.Nodup)
+    (hsub : ∀ c ∈ C, c ∈ cells) (hfresh : ∀ c ∈ cells, v ∉ c) (hF : F.Nodup) (hV : V.Nodup)
+    (hVb : ∀ f ∈ V, f ∈ bdry cells)
+    (hFV : ∀ f, f ∈ F ↔ (f ∈ bdry C ∧ f ∉ V) ∨ (f ∈ V ∧ f ∉ bdry C))
+    (h2 : ∀ f, facetCount cells f ≤ 2) :
+    (bdry (cavityInsertWith cells C F v)).length =
+      (bdry cells).length - V.length + (bdry F).length := by
+  have hFsub : ∀ g ∈ F, g ∈ bdry C ∨ g ∈ bdry cells := fun g hg => by
+    rcases (hFV g).1 hg with h | h
+    · exact Or.inl h.1
+    · exact Or.inr (hVb g h.1)
+  have hsC : ∀ c ∈ C, c.Pairwise (· < ·) := fun c hc => hs c (hsub c hc)
+  have hfC : ∀ c ∈ C, v ∉ c := fun c hc => hfresh c (hsub c hc)
+  exact hull_count_of_old_part C hfresh
+    (fun g hg => (hFsub g hg).elim (bdry_lt_sorted hsC g) (bdry_lt_sorted hs g))
+    (fun g hg => (hFsub g hg).elim (bdry_fresh hfC g) (bdry_fresh hfresh g)) hV hVb
+    (fun f hvf => hull_after_extension_conflict hnd hs hC hsub hfresh hF hVb hFV hvf (h2 f))
+
+/-- **count, interior insertion**: no old hull facet is lost; the new ones are the cones over
+`bdry (cavityBoundary C)`, which is empty when the boundary of the removed region is closed -/
+theorem hull_count_interior {cells C : List (List Nat)} {v : Nat}
+    (hnd : cells.Nodup) (hs : ∀ c ∈ cells, c.Pairwise (· < ·)) (hC : C.Nodup)
+    (hsub : ∀ c ∈ C, c ∈ cells) (hfresh : ∀ c ∈ cells, v ∉ c)
+    (h2 : ∀ f, facetCount cells f ≤ 2) :
+    (bdry (cavityInsert cells C v)).length = (bdry cells).length + (bdry (bdry C)).length := by
+  have := hull_count_extension_conflict (V := []) hnd hs hC hsub hfresh (cavityBoundary_nodup C)
+    List.nodup_nil (by simp) (fun g => by simp [bdry]) h2
+  simpa [cavityInsert, bdry] using this
+
+/-! ### §h5 non-vacuity -/
+
+/-- 2-D: `3` outside `[0,1,2]` seeing the edge `[1,2]`; horizon = the two end points of the edge -/
+theorem ex_hull_extension_2d :
+    bdry [[0, 1, 2]] = [[1, 2], [0, 2], [0, 1]] ∧
+    bdry (cavityInsertWith [[0, 1, 2]] [] [[1, 2]] 3) = [[0, 2], [0, 1], [2, 3], [1, 3]] ∧
+    bdry [[1, 2]] = [[2], [1]] := by decide
+/-- interior insertion with both triangles removed (the removed region touches the hull in all
+its boundary edges): hull unchanged, no horizon -/
+theorem ex_hull_interior_2d :
+    bdry [[0, 1, 2], [1, 2, 3]] = [[0, 2], [0, 1], [2, 3], [1, 3]] ∧
+    bdry (cavityInsert [[0, 1, 2], [1, 2, 3]] [[0, 1, 2], [1, 2, 3]] 4) =
+      [[0, 2], [0, 1], [2, 3], [1, 3]] ∧
+    bdry (cavityBoundary [[0, 1, 2], [1, 2, 3]]) = [] := by decide
+/-- interior insertion into a fan plus one triangle, the removed region `[1,2,9]`, `[1,2,3]` touches
+the hull in `[2,3]`, `[1,3]`: hull unchanged -/
+theorem ex_hull_interior_touching :
+    bdry [[0, 1, 9], [1, 2, 9], [0, 2, 9], [1, 2, 3]] = [[0, 1], [0, 2], [2, 3], [1, 3]] ∧
+    cavityBoundary [[1, 2, 9], [1, 2, 3]] = [[2, 9], [1, 9], [2, 3], [1, 3]] ∧
+    bdry (cavityInsert [[0, 1, 9], [1, 2, 9], [0, 2, 9], [1, 2, 3]] [[1, 2, 9], [1, 2, 3]] 10) =
+      [[0, 1], [0, 2], [2, 3], [1, 3]] := by decide
+/-- hull extension seeing the two adjacent edges `[2,3]`, `[1,3]`: both leave the hull, the common
+end point `3` is not on the horizon -/
+theorem ex_hull_extension_two_edges :
+    bdry (cavityInsertWith [[0, 1, 2], [1, 2, 3]] [] [[2, 3], [1, 3]] 4) =
+      [[0, 2], [0, 1], [2, 4], [1, 4]] ∧
+    bdry [[2, 3], [1, 3]] = [[2], [1]] := by decide
+/-- hull extension with a conflict region: `4` in conflict with `[1,2,3]` sees `[2,3]`; coned are
+`[1,2]`, `[1,3]`; `[2,3]` leaves the hull, `[1,3]` stays (as the base of `[1,3,4]`) -/
+theorem ex_hull_extension_conflict :
+    cavityInsertWith [[0, 1, 2], [1, 2, 3]] [[1, 2, 3]] [[1, 2], [1, 3]] 4 =
+      [[0, 1, 2], [1, 2, 4], [1, 3, 4]] ∧
+    bdry (cavityInsertWith [[0, 1, 2], [1, 2, 3]] [[1, 2, 3]] [[1, 2], [1, 3]] 4) =
+      [[0, 2], [0, 1], [2, 4], [3, 4], [1, 3]] ∧
+    bdry [[1, 2], [1, 3]] = [[2], [3]] := by decide
+/-- the degree bound in `hull_after_interior` is needed: the edge `[1,2]` lies in three triangles,
+two of them are removed; it is not a boundary edge of the removed region, so it is not coned and is
+a hull facet afterwards although it was not one before -/
+theorem hull_after_interior_needs_le_two :
+    facetCount [[0, 1, 2], [1, 2, 3], [1, 2, 4]] [1, 2] = 3 ∧
+    [1, 2] ∉ bdry [[0, 1, 2], [1, 2, 3], [1, 2, 4]] ∧
+    [1, 2] ∈ bdry (cavityInsert [[0, 1, 2], [1, 2, 3], [1, 2, 4]] [[1, 2, 3], [1, 2, 4]] 5) := by
+  decide
+/-- 3-D: `4` outside the tetrahedron seeing the face `[1,2,3]`; horizon = its three edges -/
+theorem ex_hull_3d :
+    bdry (cavityInsertWith [[0, 1, 2, 3]] [] [[1, 2, 3]] 4) =
+      [[0, 2, 3], [0, 1, 3], [0, 1, 2], [2, 3, 4], [1, 3, 4], [1, 2, 4]] ∧
+    bdry [[1, 2, 3]] = [[2, 3], [1, 3], [1, 2]] := by decide
+
+/-- instances of the general theorems (their hypotheses are satisfiable) -/
+example : ∀ f, 3 ∉ f → (f ∈ bdry (cavityInsertWith [[0, 1, 2]] [] [[1, 2]] 3) ↔
+    f ∈ bdry [[0, 1, 2]] ∧ f ∉ [[1, 2]]) :=
+  fun _ hvf => hull_after_extension (by decide) (by decide) (by decide) (by decide) (by decide) hvf
+
+example : (bdry (cavityInsertWith [[0, 1, 2], [1, 2, 3]] [] [[2, 3], [1, 3]] 4)).length =
+    (bdry [[0, 1, 2], [1, 2, 3]]).length - [[2, 3], [1, 3]].length + (bdry [[2, 3], [1, 3]]).length :=
+  hull_count_extension (by decide) (by decide) (by decide) (by decide) (by decide)
+
+example : ∀ f, 10 ∉ f → facetCount [[0, 1, 9], [1, 2, 9], [0, 2, 9], [1, 2, 3]] f ≤ 2 →
+    (f ∈ bdry (cavityInsert [[0, 1, 9], [1, 2, 9], [0, 2, 9], [1, 2, 3]] [[1, 2, 9], [1, 2, 3]] 10) ↔
+      f ∈ bdry [[0, 1, 9], [1, 2, 9], [0, 2, 9], [1, 2, 3]]) :=
+  fun _ hvf h2 => hull_after_interior (by decide) (by decide) (by decide) (by decide) (by decide)
+    hvf h2
+
+example : hullStepFacets [[1, 2, 3]] [[2, 3]] = [[1, 3], [1, 2]] ∧
+    (bdry (cavityInsertWith [[0, 1, 2], [1, 2, 3]] [[1, 2, 3]]
+      (hullStepFacets [[1, 2, 3]] [[2, 3]]) 4)).length =
+    (bdry [[0, 1, 2], [1, 2, 3]]).length - [[2, 3]].length +
+      (bdry (hullStepFacets [[1, 2, 3]] [[2, 3]])).length :=
+  ⟨by decide, hull_count_extension_conflict (by decide) (by decide) (by decide) (by decide)
+    (by decide) (hullStepFacets_nodup _ (by decide)) (by decide) (by decide)
+    (fun _ => mem_hullStepFacets) (facetCount_le_of_forall_mem (by decide))⟩
 
 end DM.C11
